@@ -120,9 +120,36 @@ func canonT(v reflect.Value, coqTy string) string {
 func RunConvert(r *rand.Rand, n int) []ConvCase {
 	var out []ConvCase
 	tys := convTypes()
+	// fixed shapes first: nil at every position of a list and of a list of lists, against every target type
+	type fixed struct {
+		v   any
+		coq string
+	}
+	fx := []fixed{
+		{nil, "GNil"},
+		{[]interface{}{}, "(GList [])"},
+		{[]interface{}{nil}, "(GList [GNil])"},
+		{[]interface{}{int64(1), nil, int64(2)}, "(GList [(GNum KInt (2)%Z); GNil; (GNum KInt (4)%Z)])"},
+		{[]interface{}{"a", nil}, "(GList [(GStr 1%N); GNil])"},
+		{[]interface{}{[]interface{}{"a"}, nil, []interface{}{"hello", "a"}}, "(GList [(GList [(GStr 1%N)]); GNil; (GList [(GStr 2%N); (GStr 1%N)])])"},
+		{[]interface{}{[]interface{}{int64(3)}, nil, []interface{}{}}, "(GList [(GList [(GNum KInt (6)%Z)]); GNil; (GList [])])"},
+		{[]interface{}{[]interface{}{nil}}, "(GList [(GList [GNil])])"},
+		{[]interface{}{nil, []interface{}{float64(1.5), nil}}, "(GList [GNil; (GList [(GNum KFloat (3)%Z); GNil])])"},
+	}
+	nfx := 0
+	if n >= len(fx)*len(tys) {
+		nfx = len(fx) * len(tys)
+	}
 	for k := 0; k < n; k++ {
-		src, coq := genG(r, 2)
-		ty := tys[r.Intn(len(tys))]
+		var src any
+		var coq string
+		var ty convTy
+		if k < nfx {
+			src, coq, ty = fx[k/len(tys)].v, fx[k/len(tys)].coq, tys[k%len(tys)]
+		} else {
+			src, coq = genG(r, 2)
+			ty = tys[r.Intn(len(tys))]
+		}
 		c := ConvCase{Src: coq, Ty: ty.coq}
 		func() {
 			defer func() {
